@@ -68,8 +68,8 @@ def replay_call(rp):
         return call_surface(FN.index(fn), a['values'], a['dt'], tts, a['nodal'], ur, dr, a['stt'], a['trim'], a['start'])
     from eqsig.fns import time_shift as ts
     if fn == 'put_array_in_2d_array':
-        return ts.put_array_in_2d_array(np.array(a['values']), np.array(a['shifts'], dtype=int), clip=a['clip']).tolist()
-    return ts.join_values_w_shifts(np.array(a['values']), np.array(a['shifts'], dtype=int), jtype=a['jtype']).tolist()
+        return np.array(ts.put_array_in_2d_array(np.array(a['values'], dtype=a.get('values_dtype')), np.array(a['shifts'], dtype=int), clip=a['clip']), dtype=float).tolist()
+    return np.array(ts.join_values_w_shifts(np.array(a['values'], dtype=a.get('values_dtype')), np.array(a['shifts'], dtype=int), jtype=a['jtype']), dtype=float).tolist()
 
 
 def gen_config(rng, exact, tier, shared_red=False, int_tts=False):
@@ -234,6 +234,61 @@ def low_amplitude_cases(rep, rng, tier, cases, scales):
                            nontrivial=any(v != 0 for v in cfg['vals']), klass=site + '/low-amplitude/' + ('exact' if exact else 'tol')))
 
 
+RULE += ('; raw-count records: put_array_in_2d_array / join_values_w_shifts (add and sub) on values held in a narrow or unsigned integer dtype '
+         '(uint8, uint16, int16, int8, uint32; counts up to full scale, so sums / differences of the original and a shifted copy leave the dtype range and '
+         'differences of unsigned counts are negative), compared at tolerance 0 with the same list models (the mathematical integers)')
+
+NARROW = [('uint8', 0, 255), ('uint16', 0, 65535), ('int16', -32768, 32767), ('int8', -128, 127), ('uint32', 0, 2 ** 32 - 1)]
+
+
+def narrow_dtype_cases(rep, rng, tier, puts, joins):
+    """values given as raw digitiser counts in a narrow / unsigned integer dtype: the helpers place / join the mathematical values
+    (the unchanged code allocates float64 and joins in float64: every value here is an integer below 2^33, so exact)"""
+    from eqsig.fns import time_shift as ts
+    n_cases = 30 if tier == 'quick' else 400
+    for k in range(n_cases):
+        dname, lo, hi = NARROW[k % 3] if k % 5 else NARROW[3 + (k // 5) % 2]
+        n = gens.small_len(rng, 1, 24)
+        style = rng.choice(['full', 'full', 'small', 'edges'])
+        if style == 'full':
+            vi = [rng.randint(lo, hi) for _ in range(n)]
+        elif style == 'small':
+            vi = [rng.randint(max(lo, -20), min(hi, 20)) for _ in range(n)]
+        else:
+            vi = [rng.choice([lo, hi, hi - 1, lo + 1, (hi + 1) // 2, 0, 1]) for _ in range(n)]
+        if not any(vi):
+            vi[0] = hi
+        arr = np.array(vi, dtype=dname)
+        assert arr.dtype == np.dtype(dname) and arr.tolist() == vi
+        ns = rng.choice([1, 2, 3])
+        sh = [rng.randint(0, rng.choice([0, 1, 3, n + 2])) for _ in range(ns)]
+        if k % 3 == 0:
+            lo_s, hi_s = rng.choice([(-6, 6), (-3, 0), (0, 4)])
+            shifts = [rng.randint(lo_s, hi_s) for _ in range(ns)]
+            clip = rng.choice(CLIPS)
+            site = 'eqsig.fns.time_shift.put_array_in_2d_array[clip=%s]' % clip
+            args = {'values': vi, 'values_dtype': dname, 'shifts': shifts, 'clip': clip}
+            r = guarded(ts.put_array_in_2d_array, arr.copy(), np.array(shifts, dtype=int), clip=clip)
+            if isinstance(r, ImplError):
+                rep.violation(site, {'function': site, 'args': args, 'impl_error': str(r)})
+            else:
+                out = [list(map(float, row)) for row in np.array(r, dtype=float)]
+                puts.append(Case('(%s, %s, %d%%nat, %s)' % (qlist(vi), zlist(shifts), CLIPS.index(clip), qmat(out)),
+                                 {'function': site, 'args': args, 'impl': out}, site,
+                                 nontrivial=any(s != 0 for s in shifts), klass='%s/dtype=%s' % (site, dname)))
+        for jt in ('add', 'sub'):
+            site = 'eqsig.fns.time_shift.join_values_w_shifts[%s]' % jt
+            args = {'values': vi, 'values_dtype': dname, 'shifts': sh, 'jtype': jt}
+            r = guarded(ts.join_values_w_shifts, arr.copy(), np.array(sh, dtype=int), jtype=jt)
+            if isinstance(r, ImplError):
+                rep.violation(site, {'function': site, 'args': args, 'impl_error': str(r)})
+            else:
+                out = [list(map(float, row)) for row in np.array(r, dtype=float)]
+                joins.append(Case('(%s, %s, %s, %s)' % (cbool(jt == 'add'), qlist(vi), zlist(sh), qmat(out)),
+                                  {'function': site, 'args': args, 'impl': out}, site,
+                                  nontrivial=True, klass='%s/dtype=%s' % (site, dname)))
+
+
 def regen_c19():
     """re-translate eqsig/surface.py and eqsig/fns/time_shift.py -> coq/gen/Gen_c19.v (fail closed: the message is handed to rep.prove)"""
     import os, sys
@@ -335,6 +390,7 @@ def run(rep, rng, tier):
                                   {'function': site, 'args': args, 'impl': out}, site,
                                   nontrivial=any(s != 0 for s in sh) and any(v != 0 for v in vi), klass=site))
 
+    narrow_dtype_cases(rep, rng, tier, puts, joins)
     low_amplitude_cases(rep, rng, tier, cases, scales)
     rep.correspond('model.K_C19', 'check_case', cases, describe='model_out %s')
     rep.correspond('model.K_C19', 'chk_scale', scales)
